@@ -148,14 +148,21 @@ func (fr *Frame) libModel(fn *ssa.Function, full string, args []Val, st *State, 
 			c.heapSet(st, en, tStore(c.heapGet(st, en), r, app(ArrSort(SInt, SInt), "big.bytes", a)))
 			ln := app(SInt, "big.byteslen", a)
 			c.assumeG(g, mk(SBool, fmt.Sprintf("(and (>= %s 0) (= (= %s 0) (= %s 0)))", ln.S, ln.S, a.S)))
-			return done(tv(mk(SSlice, fmt.Sprintf("(mk-slice %s 0 %s)", r.S, ln.S))))
+			res := mk(SSlice, fmt.Sprintf("(mk-slice %s 0 %s)", r.S, ln.S))
+			// content-level codec facts (A-CODEC): bytes(x) is big.enc(|x|), decodable by big.dec
+			c.declareFun("big.enc", []Sort{SInt}, SStr)
+			c.declareFun("big.dec", []Sort{SStr}, SInt)
+			c.assumeG(g, mk(SBool, fmt.Sprintf("(and (= %s (big.enc %s)) (= (gstr.len (big.enc %s)) %s) (= (big.dec (big.enc %s)) %s))", c.bytesContent(st, res).S, a.S, a.S, ln.S, a.S, a.S)))
+			return done(tv(res))
 		case "SetBytes":
 			nonNil(0)
 			c.declareFun("bytes.big", []Sort{ArrSort(SInt, SInt), SInt, SInt}, SInt)
 			s := T(1)
 			en := c.elemName(SInt)
 			arr := tSelect(c.heapGet(st, en), mk(SInt, "(s.arr "+s.S+")"))
-			v := c.define("setbytes", app(SInt, "bytes.big", arr, mk(SInt, "(s.off "+s.S+")"), mk(SInt, "(s.len "+s.S+")")))
+			_ = arr
+			c.declareFun("big.dec", []Sort{SStr}, SInt)
+			v := c.define("setbytes", app(SInt, "big.dec", c.bytesContent(st, s)))
 			c.assumeG(g, tGe(v, intLit(0)))
 			// round trip with Bytes: bytes.big(big.bytes(a), 0, big.byteslen(a)) == a   (A-CODEC, instantiated lazily in specs)
 			setBig(T(0), v)
@@ -359,7 +366,10 @@ func (fr *Frame) libModel(fn *ssa.Function, full string, args []Val, st *State, 
 		cur = fr.mayPanicIf(cur, mk(SBool, fmt.Sprintf("(< (s.len %s) 8)", s.S)), st, "index", pos, "BigEndian.Uint64: short slice")
 		en := c.elemName(SInt)
 		arr := tSelect(c.heapGet(st, en), mk(SInt, "(s.arr "+s.S+")"))
-		v := c.define("be.u64", app(SInt, "be.u64", arr, mk(SInt, "(s.off "+s.S+")")))
+		_ = arr
+		c.declareFun("be64.dec", []Sort{SStr}, SInt)
+		first8 := mk(SSlice, fmt.Sprintf("(mk-slice (s.arr %s) (s.off %s) 8)", s.S, s.S))
+		v := c.define("be.u64", app(SInt, "be64.dec", c.bytesContent(st, first8)))
 		c.assumeG(g, c.typeConstraint(types.Typ[types.Uint64], v))
 		return done(tv(v))
 	case full == "encoding/binary.bigEndian.PutUint64" || full == "(encoding/binary.bigEndian).PutUint64":
@@ -374,6 +384,11 @@ func (fr *Frame) libModel(fn *ssa.Function, full string, args []Val, st *State, 
 		// decode(encode) = id at this offset (A-CODEC instance)
 		c.assumeG(g, mk(SBool, fmt.Sprintf("(= (be.u64 %s (s.off %s)) %s)", na.S, s.S, T(2).S)))
 		c.heapSet(st, en, tStore(c.heapGet(st, en), arrRef, na))
+		// content-level codec facts (A-CODEC)
+		c.declareFun("be64.enc", []Sort{SInt}, SStr)
+		c.declareFun("be64.dec", []Sort{SStr}, SInt)
+		first8 := mk(SSlice, fmt.Sprintf("(mk-slice (s.arr %s) (s.off %s) 8)", s.S, s.S))
+		c.assumeG(g, mk(SBool, fmt.Sprintf("(and (= %s (be64.enc %s)) (= (gstr.len (be64.enc %s)) 8) (= (be64.dec (be64.enc %s)) %s))", c.bytesContent(st, first8).S, T(2).S, T(2).S, T(2).S, T(2).S)))
 		return done(Val{})
 	case full == "bytes.Equal":
 		c.declareFun("bytes.eq", []Sort{ArrSort(SInt, SInt), SInt, SInt, ArrSort(SInt, SInt), SInt, SInt}, SBool)
@@ -391,5 +406,50 @@ func (fr *Frame) libModel(fn *ssa.Function, full string, args []Val, st *State, 
 		c.declareFun("powR", []Sort{SReal, SReal}, SReal)
 		return done(tv(app(SReal, "powR", T(0), T(1))))
 	}
+	if isPureLibFunc(fn) {
+		// side-effect free standard-library function: unconstrained result, heap untouched (listed as trusted)
+		c.trustedUsed["pure library function: "+full] = true
+		r := c.freshVal(st, g, resType, "lib."+fn.Name())
+		return done(r)
+	}
 	return Val{}, nil, false
+}
+
+// isPureLibFunc: dependency functions assumed not to modify program-visible memory (their results are left unconstrained).
+func isPureLibFunc(fn *ssa.Function) bool {
+	if fn.Pkg != nil && fn.Blocks != nil {
+		return false // functions of the loaded module are never assumed pure
+	}
+	obj := fn.Object()
+	if obj == nil || obj.Pkg() == nil {
+		return false
+	}
+	path := obj.Pkg().Path()
+	recv := fn.Signature.Recv()
+	switch path {
+	case "strings", "strconv", "unicode", "unicode/utf8", "math", "math/bits", "errors", "encoding/hex", "path", "path/filepath", "regexp/syntax":
+		if recv == nil {
+			return true
+		}
+		// value receivers only
+		_, isPtr := recv.Type().Underlying().(*types.Pointer)
+		return !isPtr
+	case "time":
+		if recv == nil {
+			return true
+		}
+		_, isPtr := recv.Type().Underlying().(*types.Pointer)
+		return !isPtr
+	case "fmt":
+		return strings.HasPrefix(fn.Name(), "Sprint") || fn.Name() == "Errorf"
+	case "bytes":
+		switch fn.Name() {
+		case "Equal", "Compare", "HasPrefix", "HasSuffix", "Contains", "Index", "IndexByte", "TrimLeft", "TrimRight", "TrimSpace", "Count":
+			return recv == nil
+		}
+	case "regexp":
+		// (*Regexp).Match* do not modify the arguments
+		return strings.HasPrefix(fn.Name(), "Match")
+	}
+	return false
 }
